@@ -74,7 +74,12 @@ def check(inp):
         return RVData(Time(np.array(times), format="mjd", scale="tcb"), rv=np.arange(n) * u.km / u.s, rv_err=np.ones(n) * u.km / u.s, t_ref=tref)
     data = mk(ts)
     s = JokerSamples()
+    # the period column is assigned twice on the same object (a user correcting a value): the diagnostics read the value assigned LAST
+    s["P"] = [3.0 * P.value] * P.unit
     s["P"] = [P.value] * P.unit
+    if abs(float(s["P"][0].to_value(u.day)) - Pd) > 1e-12 * Pd:
+        bad("JokerSamples.__setitem__", "the-column-now-is-the-assigned-quantity[call-history]", got=float(s["P"][0].to_value(u.day)), want=Pd)
+        return fails
     phases = [(x / 12.0) % 1.0 for x in inp["ph"]]
     ph_code = np.asarray(data.phase(s["P"][0]))
     # the twin's own rounding guard: skip cases where floating point moved a phase across a grid line
